@@ -17,6 +17,7 @@ pub mod c04;
 mod c05;
 mod c06;
 mod c07;
+mod c08;
 mod c17;
 
 use report::{Ctx, Evidence, Tier};
@@ -59,6 +60,7 @@ fn checks() -> Vec<(&'static str, CheckFn)> {
         ("C05", c05::run as CheckFn),
         ("C06", c06::run as CheckFn),
         ("C07", c07::run as CheckFn),
+        ("C08", c08::run as CheckFn),
         ("C17", c17::run as CheckFn),
         ("REFQUAL", refqual::run as CheckFn),
     ]
